@@ -45,12 +45,16 @@ CLAIMED = {
          "At every build of every history: a repeated key => DuplicateTopLevelPayloadClaim naming a duplicated key and no token, now and later; no repeat => success with every supplied value; exp-after-acknowledgement latitude honoured.", PV_NOTE),
  "C18": ("pv", "exhaustive sweep of all 69,905 keys of length <= 4 over a 16-symbol alphabet x 13 constructor/value-type forms + generated decorated keys and RFC 3339 / non-date strings; proptest",
          "Reserved(k) iff key is exactly one of the seven, for every constructor form and value type; time-claim constructors accept every generated RFC 3339 date-time verbatim and reject the must-reject domain.", PV_NOTE),
+ "C19": ("c19-driver", "exhaustive generation of a finite family of programs (metamorphic: known-good template with one type parameter replaced) with an explicit compile/reject oracle table, decided by rustc",
+         "All 525 programs of the (operation, token protocol, key protocol) family, wrong-purpose methods, assertion setters/arities and key constructions are generated and type-checked against the working tree; 439 must be rejected with type-level errors only, 86 positive templates must compile. Thorough re-checks every negative program in isolation.",
+         "decided for the rustc of this image; the table covers the operations named in the statement"),
  "C20": ("c20-driver", "exhaustive enumeration of generated feature configurations with an accept oracle (cargo check/run) and ddmin shrinking",
          "Every configuration of the stated lattice (quick: singletons, pairs, full, default, none x 3 layers; thorough: all 255 x 3) is compiled and, for the run subset, executed with one round trip per enabled protocol and layer; monotonicity pairs S<S' compiled. Exhaustive in thorough.",
          "trusts cargo/rustc of the image; the smoke program performs one round trip per protocol and layer only"),
 }
 ENGINES = [
  {"name": "pv", "path": "harness", "serves_properties": sorted(k for k, v in CLAIMED.items() if v[0] == "pv"), "kind_free_text": "Rust binary: proptest TestRunner (fixed seed, shrinking, no persistence) + deterministic enumeration, explicit oracles per property, all-features build of /repo as a path dependency"},
+ {"name": "c19-driver", "path": "cfg/c19.py", "serves_properties": ["C19"], "kind_free_text": "generator of Rust programs + cargo check --keep-going --message-format=json + accept/reject table"},
  {"name": "c20-driver", "path": "cfg/c20.py", "serves_properties": ["C20"], "kind_free_text": "exhaustive generation of cargo feature configurations, cargo check/run of a smoke program, ddmin shrinking"},
 ]
 checks = []
